@@ -57,6 +57,7 @@ int act (string arg) {
 void x_aa (string verb) { add_action ("act", verb); }
 int x_cmd (string verb) { return command (verb); }
 void x_mv (object d) { move_object (d); }
+object x_mvs (string p) { move_object (p); return environment (); }
 void x_ec () { enable_commands (); }
 void x_dc () { disable_commands (); }
 void x_ln (string s) { set_living_name (s); }
